@@ -3,6 +3,7 @@ C02 — helper lemmas: what every C01 operation does to the two commitment chain
 inductive invariants `RelInv` (release rule) and `DiskInv` (durable commitments = memory).
 -/
 import LndModel.C02.Model
+import LndModel.C02.Spec
 import LndModel.C01.Props
 set_option linter.unusedSimpArgs false
 set_option linter.unusedVariables false
@@ -632,5 +633,51 @@ instance (n : Node) : Decidable (Inv n) := decidable_of_iff _ (inv_iff n).symm
     restored state after every probe and every real restart. -/
 def invCheck (n : Node) : Bool := decide (Inv n)
 
+
+/-! ### the height equivalence -/
+
+theorem hEquiv_iff (t a b : Nat) :
+    hEquiv t a b = true ↔ ((a = 0 ↔ b = 0) ∧ (a ≤ t ↔ b ≤ t) ∧ (a ≤ t ∨ a = b)) := by
+  unfold hEquiv
+  simp only [Bool.and_eq_true, Bool.or_eq_true, beq_iff_eq, decide_eq_true_eq]
+  constructor
+  · rintro ⟨⟨h1, h2⟩, h3⟩
+    refine ⟨?_, ?_, h3⟩
+    · constructor
+      · intro ha
+        have : (a == 0) = true := by simpa using ha
+        rw [this] at h1
+        simpa using h1.symm
+      · intro hb
+        have : (b == 0) = true := by simpa using hb
+        rw [this] at h1
+        simpa using h1
+    · constructor
+      · intro ha
+        have : decide (a ≤ t) = true := by simpa using ha
+        rw [this] at h2
+        simpa using h2.symm
+      · intro hb
+        have : decide (b ≤ t) = true := by simpa using hb
+        rw [this] at h2
+        simpa using h2
+  · rintro ⟨h1, h2, h3⟩
+    refine ⟨⟨?_, ?_⟩, h3⟩
+    · by_cases ha : a = 0
+      · have hb := h1.mp ha
+        subst ha; subst hb; rfl
+      · have hb : ¬ b = 0 := fun hb => ha (h1.mpr hb)
+        have e1 : (a == 0) = false := by simpa using ha
+        have e2 : (b == 0) = false := by simpa using hb
+        rw [e1, e2]
+    · by_cases ha : a ≤ t
+      · have hb := h2.mp ha
+        have e1 : decide (a ≤ t) = true := by simpa using ha
+        have e2 : decide (b ≤ t) = true := by simpa using hb
+        rw [e1, e2]
+      · have hb : ¬ b ≤ t := fun hb => ha (h2.mpr hb)
+        have e1 : decide (a ≤ t) = false := by simpa using ha
+        have e2 : decide (b ≤ t) = false := by simpa using hb
+        rw [e1, e2]
 
 end LndModel.C02
